@@ -5,13 +5,14 @@
 (* actions of ToolRun.                                                     *)
 (*                                                                         *)
 (* One run in the trace file is                                            *)
-(*   {"e":"Run","tool":..,"req":[..],"nfiles":n,"io":0|1}   (vf, before the run)       *)
+(*   {"e":"Run","tool":..,"req":[..],"nfiles":n,"io":0|1,"role":..}  (vf, before the run;     *)
+(*        role = where the text under test sits: command-line file, quote/angle include, ...)  *)
 (*   H-run hook events of the process, in program order:                   *)
 (*     ParseFile{ok,errors}  Built  OpenOutput{ch,ok}  WriterDone{ch,fail,status}  Exit{status} *)
 (*   merged (same file, O_APPEND) with the injector's call log when io = 1:*)
 (*     io{op:open|write|close, ch, n, ok}                                  *)
 (*   {"e":"Observed","rc":..,"signal":..,"timeout":..,"present":[..],"disk":{ch:bytes},   *)
-(*    "want":{ch:bytes},"ndiag":..,"loaderr":0|1}            (vf: the monitor record)    *)
+(*    "want":{ch:bytes},"ndiag":..,"nerr":..,"loaderr":0|1}  (vf: the monitor record)    *)
 (*                                                                         *)
 (* io = 1 (C19): the environment's answers are the injector's events; the  *)
 (* hook events must arrive where the intended protocol has the program     *)
@@ -275,9 +276,13 @@ TObserved ==
   /\ onDisk' = Sizes(l, "disk", onDisk)
   /\ produced' = Sizes(l, "want", produced)
   /\ diags' = Tr[l].ndiag
+  \* the errors the caller of the tool was TOLD about (" error: " diagnostics on stderr): when the
+  \* program printed more of them than its own counter admits, the larger number is what the
+  \* protocol is judged on (C15_OkIffNoErrors, C15_ErrorMeansFailure)
+  /\ errors' = IF Has(l, "nerr") /\ Tr[l].nerr > errors THEN Tr[l].nerr ELSE errors
   /\ pc' = "Judged"
-  /\ UNCHANGED <<CmdVars, ParseVars, ci, wk, opened, failbit, sched, openedBeforeParseEnd, loadErr,
-                 status, signal>>
+  /\ UNCHANGED <<CmdVars, fi, lastOk, unread, parsed, ci, wk, opened, failbit, sched,
+                 openedBeforeParseEnd, loadErr, status, signal>>
   /\ l' = l + 1 /\ UNCHANGED <<io, run>>
 
 \* the process died (signal, abort, uncaught exception, sanitizer report) or hung, wherever it was
